@@ -12,6 +12,7 @@ package main
 // that its reverse statements (and DROPs) are built from the replayed objects.
 
 import (
+	"path/filepath"
 	"context"
 	"database/sql"
 	"errors"
@@ -93,6 +94,11 @@ type devDrv struct {
 	executed []string
 	history  []string // statements of the files written so far
 	snaps    int
+	// round 5 (PlanWithExclude): the dev database also holds a table the history does not create
+	// (e.g. a revisions table) -- reported by every inspection whose Exclude patterns do not match it
+	extra     string
+	sawExcl   int // inspections that carried the exclude patterns
+	sawNoExcl int
 }
 
 func (d *devDrv) differ() schema.Differ {
@@ -133,7 +139,22 @@ func (d *devDrv) current() (*schema.Schema, error) {
 	}
 	return buildSchema(d.pg, d.devName, d.state), nil
 }
-func (d *devDrv) InspectSchema(_ context.Context, name string, _ *schema.InspectOptions) (*schema.Schema, error) {
+// withExtra: the table outside the history, unless one of the exclude patterns names it.
+func (d *devDrv) withExtra(s *schema.Schema, exclude []string) {
+	if d.extra == "" {
+		return
+	}
+	for _, p := range exclude {
+		if ok, _ := filepath.Match(p, d.extra); ok {
+			d.sawExcl++
+			return
+		}
+	}
+	d.sawNoExcl++
+	t := schema.NewTable(d.extra).AddColumns(schema.NewIntColumn("id", "int"))
+	s.AddTables(t)
+}
+func (d *devDrv) InspectSchema(_ context.Context, name string, o *schema.InspectOptions) (*schema.Schema, error) {
 	if name != "" && name != d.devName {
 		return nil, &schema.NotExistError{Err: fmt.Errorf("schema %q was not found", name)}
 	}
@@ -141,13 +162,30 @@ func (d *devDrv) InspectSchema(_ context.Context, name string, _ *schema.Inspect
 	if err != nil {
 		return nil, err
 	}
+	if o != nil {
+		d.withExtra(s, o.Exclude)
+	} else {
+		d.withExtra(s, nil)
+	}
 	schema.NewRealm(s)
 	return s, nil
 }
-func (d *devDrv) InspectRealm(context.Context, *schema.InspectRealmOption) (*schema.Realm, error) {
+func (d *devDrv) InspectRealm(_ context.Context, o *schema.InspectRealmOption) (*schema.Realm, error) {
 	s, err := d.current()
 	if err != nil {
 		return nil, err
+	}
+	if o != nil {
+		var pats []string
+		for _, p := range o.Exclude { // realm patterns: <schema>.<table> or *.<table>
+			if i := strings.LastIndex(p, "."); i >= 0 {
+				p = p[i+1:]
+			}
+			pats = append(pats, p)
+		}
+		d.withExtra(s, pats)
+	} else {
+		d.withExtra(s, nil)
 	}
 	return schema.NewRealm(s), nil
 }
@@ -467,6 +505,18 @@ func replayCase(w *out.W, id string, g *gen, cfg planCfg, scope string, script .
 	if cfg.q != nil {
 		opts = append(opts, migrate.PlanWithSchemaQualifier(*cfg.q))
 	}
+	// round 5: one case in three plans with PlanWithExclude: the dev database holds a table that is
+	// not part of the history; the exclude pattern must reach every inspection of the planner
+	excl := g.r.Chance(1, 3)
+	if excl {
+		drv.extra = fmt.Sprintf("zz_revisions%d", g.r.Intn(90))
+		pat := "zz_revisions*"
+		if drv.realm {
+			pat = "*." + pat
+		}
+		opts = append(opts, migrate.PlanWithExclude(pat))
+		w.Count("exclude:yes")
+	}
 	pl := migrate.NewPlanner(drv, dir, opts...)
 	steps := 2 + g.r.Intn(3) // 1-3 migrations of history + the judged next plan(s)
 	if len(script) > 0 {
@@ -479,6 +529,45 @@ func replayCase(w *out.W, id string, g *gen, cfg planCfg, scope string, script .
 	w.Count("qualifier:" + qclass(cfg.q))
 	w.Count("steps:" + itoa(steps))
 	nst := 0
+	// judge: the property oracle on every Cmd and reverse statement of a plan
+	judge := func(plan *migrate.Plan, head string) {
+		qo, qc := byte('`'), byte('`')
+		if cfg.pg {
+			qo, qc = '"', '"'
+		}
+		for _, c := range plan.Changes {
+			for ri, st := range append([]string{c.Cmd}, reverseStmts(c)...) {
+				nst++
+				where := "cmd"
+				if ri > 0 {
+					where = "reverse"
+				}
+				if excl && strings.Contains(st, drv.extra) {
+					w.Violation(id, "excluded-table-planned", fmt.Sprintf("%s: %s statement names the excluded table %s: %s", head, where, drv.extra, oneLine(st)))
+				}
+				chs, lits, inLits := judgeLex(w, id, head, where, st, cfg)
+				all := append(chs[:len(chs):len(chs)], inLits...)
+				w.NonTrivial(dial + "|" + qclass(cfg.q) + "|" + stmtShape(st, qo, qc))
+				if cfg.q == nil {
+					checkChains(w, id, head, where, st, all, cfg, cfg.marker, true)
+					continue
+				}
+				up := strings.ToUpper(st)
+				for _, p := range schemaStmt {
+					if strings.HasPrefix(up, p) {
+						w.Violation(id, "schema-statement", fmt.Sprintf("%s: %s statement %s", head, where, oneLine(st)))
+					}
+				}
+				if mentions(st, cfg.dev, all, lits) {
+					w.Violation(id, "dev-name-leak", fmt.Sprintf("%s: %s statement mentions the dev database's schema name %s: %s", head, where, cfg.dev, oneLine(st)))
+				}
+				if mentions(st, cfg.marker, all, lits) {
+					w.Violation(id, "marker-leak", fmt.Sprintf("%s: %s statement mentions the schema name %s: %s", head, where, cfg.marker, oneLine(st)))
+				}
+				checkChains(w, id, head, where, st, all, cfg, *cfg.q, false)
+			}
+		}
+	}
 	for step := 1; step <= steps; step++ {
 		// the next desired state
 		next := state
@@ -603,39 +692,7 @@ func replayCase(w *out.W, id string, g *gen, cfg planCfg, scope string, script .
 			w.Count("evolve:" + k)
 		}
 		plan.Version = fmt.Sprintf("%04d", step)
-		qo, qc := byte('`'), byte('`')
-		if cfg.pg {
-			qo, qc = '"', '"'
-		}
-		for _, c := range plan.Changes {
-			for ri, st := range append([]string{c.Cmd}, reverseStmts(c)...) {
-				nst++
-				where := "cmd"
-				if ri > 0 {
-					where = "reverse"
-				}
-				chs, lits, inLits := judgeLex(w, id, head, where, st, cfg)
-				all := append(chs[:len(chs):len(chs)], inLits...)
-				w.NonTrivial(dial + "|" + qclass(cfg.q) + "|" + stmtShape(st, qo, qc))
-				if cfg.q == nil {
-					checkChains(w, id, head, where, st, all, cfg, cfg.marker, true)
-					continue
-				}
-				up := strings.ToUpper(st)
-				for _, p := range schemaStmt {
-					if strings.HasPrefix(up, p) {
-						w.Violation(id, "schema-statement", fmt.Sprintf("%s: %s statement %s", head, where, oneLine(st)))
-					}
-				}
-				if mentions(st, cfg.dev, all, lits) {
-					w.Violation(id, "dev-name-leak", fmt.Sprintf("%s: %s statement mentions the dev database's schema name %s: %s", head, where, cfg.dev, oneLine(st)))
-				}
-				if mentions(st, cfg.marker, all, lits) {
-					w.Violation(id, "marker-leak", fmt.Sprintf("%s: %s statement mentions the schema name %s: %s", head, where, cfg.marker, oneLine(st)))
-				}
-				checkChains(w, id, head, where, st, all, cfg, *cfg.q, false)
-			}
-		}
+		judge(plan, head)
 		if err := pl.WritePlan(plan); err != nil {
 			w.Violation(id, "replay-writeplan-error", fmt.Sprintf("%s: %v", head, err))
 			w.ImplOnly(id, head+" => write error")
@@ -656,6 +713,78 @@ func replayCase(w *out.W, id string, g *gen, cfg planCfg, scope string, script .
 		}
 		state = next
 		drv.state = state
+	}
+	// round 5: the checkpoint of the directory (Planner.CheckpointSchema / Checkpoint): the whole
+	// replayed state planned as additions to an empty schema that carries the dev database's name
+	{
+		head := fmt.Sprintf("%s %s q=%s dev=%q desired=%q CHECKPOINT after [%s]", dial, scope, opt(cfg.q), cfg.dev, cfg.marker, strings.Join(trail, " | "))
+		var (
+			ck  *migrate.Plan
+			err error
+			pnc any
+		)
+		func() {
+			defer func() { pnc = recover() }()
+			if scope == "realm" {
+				ck, err = pl.Checkpoint(context.Background(), "ck")
+			} else {
+				ck, err = pl.CheckpointSchema(context.Background(), "ck")
+			}
+		}()
+		obs := ""
+		switch {
+		case pnc != nil:
+			w.Violation(id, "replay-plan-panic", fmt.Sprintf("%s: %v", head, pnc))
+			obs = "panic"
+		case err != nil:
+			w.Count("checkpoint:error")
+			w.Count("error:checkpoint:" + errClass(err.Error()))
+			obs = "rejected:error"
+			if strings.Contains(err.Error(), "schemas when migration plan is scoped to one") {
+				var n int
+				fmt.Sscanf(err.Error(), "found %d schemas", &n)
+				obs = fmt.Sprintf("rejected:multi:%d", n)
+			}
+			w.Violation(id, "checkpoint-rejected", fmt.Sprintf("%s: the checkpoint of a single-schema history is rejected: %v", head, err))
+		case len(ck.Changes) == 0:
+			w.Count("checkpoint:empty")
+			obs = "noplan"
+		default:
+			w.Count("checkpoint:planned")
+			obs = "planned"
+			judge(ck, head)
+			if excl {
+				for _, c := range ck.Changes {
+					if strings.Contains(c.Cmd, drv.extra) {
+						w.Violation(id, "excluded-table-planned", fmt.Sprintf("%s: the checkpoint holds the excluded table %s: %s", head, drv.extra, oneLine(c.Cmd)))
+					}
+				}
+			}
+		}
+		if scope == "schema" {
+			// the model's view (Qual/Checkpoint.v Planner_checkpoint): q mode dev dev nobjs obj* 0 ncur (name enum)* 0
+			ts := []string{opt(cfg.q), "0", hx(drv.devName), hx(drv.devName)}
+			var objs, tabs []string
+			for _, t := range state {
+				hasEnum := false
+				for _, c := range t.cols {
+					if c.typ == "enum" && cfg.pg {
+						hasEnum = true
+						objs = append(objs, hx(drv.devName))
+					}
+				}
+				tabs = append(tabs, hx(t.name), b01(hasEnum))
+			}
+			ts = append(ts, itoa(len(objs)))
+			ts = append(ts, objs...)
+			ts = append(ts, "0", itoa(len(state)))
+			ts = append(ts, tabs...)
+			ts = append(ts, "0")
+			w.Case(id+".ck", strings.Join(ts, " "), []string{obs})
+		}
+		if excl && drv.sawNoExcl > 0 {
+			w.Violation(id, "exclude-not-passed", fmt.Sprintf("%s: %d inspection(s) of the planner did not carry the exclude pattern (%d did)", head, drv.sawNoExcl, drv.sawExcl))
+		}
 	}
 	w.ImplOnly(id, fmt.Sprintf("%s %s q=%s steps=%d => %d statements, %d replays", dial, scope, opt(cfg.q), steps, nst, drv.snaps))
 }
